@@ -3,7 +3,9 @@
 // Every generated case is one pool (http, http/scenario, grpc, grpc/scenario; real
 // provider, gun, schedule and phout / jsonlines aggregator, built by
 // config.DecodeAndValidate) with 2..16 instances, run by the REAL engine against an
-// in-process target. The case is executed in a CHILD process (this test binary
+// in-process target; about a quarter of the cases are engines of 2-4 such pools
+// (Case.Siblings: own gun, provider, target, files and schedules each), all run by ONE
+// engine at once and each judged by the same oracle. The case is executed in a CHILD process (this test binary
 // re-executed with -test.run ^TestChild$, built with -race; a race report makes it exit with code 66):
 //
 //	(a) no race report, no runtime fatal error, no unexpected exit of the child;
@@ -77,6 +79,17 @@ type Result struct {
 	PreResolveFailed int   `json:"rounds_target_not_pre_resolved,omitempty"`
 	Conns            int64 `json:"connections_accepted_by_target,omitempty"`
 	RedialOverlap    int   `json:"rounds_redialing_while_shots_overlap,omitempty"`
+	// rounds after which the gun's answ log file was there / held something
+	AnswLogFiles   int `json:"rounds_answ_log_file_present,omitempty"`
+	AnswLogWritten int `json:"rounds_answ_log_file_not_empty,omitempty"`
+	// engines of several pools: what the child reports about the sibling pools (in the order of Case.Siblings; violations of
+	// all pools are listed in Violations of the case), the largest number of pools with overlapping shots of their own in one
+	// round, shots that began while a gun of another pool was shooting, and the rounds in which the pools made their guns
+	// side by side (the gun factory calls of one pool began before those of another ended, and the other way round)
+	Siblings         []*Result `json:"sibling_pools,omitempty"`
+	PoolsOverlapping int       `json:"pools_with_overlapping_shots,omitempty"`
+	AcrossPools      int64     `json:"shots_begun_while_a_gun_of_another_pool_was_shooting,omitempty"`
+	CtorsSideBySide  int       `json:"rounds_pools_made_their_guns_side_by_side,omitempty"`
 }
 
 const (
@@ -108,67 +121,160 @@ func dumpShared(provider any) []string {
 	return out
 }
 
-// runRound builds the pool and runs it once through the real engine with all probes.
+// poolRun is one pool of the engine under test together with its probes.
+type poolRun struct {
+	c    Case
+	id   string
+	res  *Result // what the child reports about this pool (the first pool: the Result of the case)
+	viol *violations
+	b    *built
+	gp   *gunProbes
+	pp   *probeProvider
+	real core.Provider
+	// before: the deep dump of the shared definitions before any instance held an ammo
+	before    []string
+	transport int
+}
+
+func (pr *poolRun) target() string {
+	t, _ := pr.b.pool["gun"].(map[string]any)["target"].(string)
+	return t
+}
+
+// ctxString: the string field `key` of a logged entry ("" = none).
+func ctxString(fields []zapcore.Field, key string) string {
+	for _, f := range fields {
+		if f.Key == key && f.Type == zapcore.StringType {
+			return f.String
+		}
+	}
+	return ""
+}
+
+// runRound builds the pools of the case - the pool itself and its siblings, if any -, and runs them once through ONE real
+// engine with all probes; every pool is judged by the same oracle.
 func runRound(c Case, res *Result) {
-	viol := &violations{}
-	defer func() { res.Violations = append(res.Violations, viol.get()...) }()
-	b, err := build(c, viol)
-	if err != nil {
-		res.HarnessErr = "build: " + err.Error()
+	cases := c.pools()
+	multi := len(cases) > 1
+	for len(res.Siblings) < len(cases)-1 {
+		res.Siblings = append(res.Siblings, &Result{})
+	}
+	wd, werr := os.Getwd()
+	if werr != nil {
+		res.HarnessErr = "working directory: " + werr.Error()
 		return
 	}
-	defer b.cleanup()
-	res.File = b.text
+	prs := make([]*poolRun, len(cases))
+	for i, pc := range cases {
+		pr := &poolRun{c: pc, id: poolID(i), res: res, viol: &violations{}}
+		if i > 0 {
+			pr.res = res.Siblings[i-1]
+		}
+		if multi {
+			pr.viol.prefix = fmt.Sprintf("pool %q (%s): ", pr.id, pc.Kind)
+		}
+		prs[i] = pr
+	}
+	first := prs[0]
+	viol := first.viol
+	defer func() {
+		for _, pr := range prs {
+			res.Violations = append(res.Violations, pr.viol.get()...)
+		}
+	}()
+	var pools []any
+	var texts []string
+	for _, pr := range prs {
+		b, err := build(pr.c, pr.id, wd, pr.viol)
+		if err != nil {
+			res.HarnessErr = "build: " + err.Error()
+			return
+		}
+		defer b.cleanup()
+		pr.b = b
+		pools = append(pools, b.pool)
+		if multi {
+			texts = append(texts, fmt.Sprintf("--- pool %q (%s) ---", pr.id, pr.c.Kind))
+		}
+		texts = append(texts, b.text)
+	}
+	res.File = strings.Join(texts, "\n")
 	var conf engine.Config
 	// what the components say through the global logger while the config is decoded (the http guns: a target that cannot be
 	// pre-resolved)
 	globalCore, globalLogs := observer.New(zapcore.WarnLevel)
 	restoreGlobal := zap.ReplaceGlobals(zap.New(globalCore))
-	derr := pand.Decode(map[string]any{"pools": []any{b.pool}}, &conf)
+	derr := pand.Decode(map[string]any{"pools": pools}, &conf)
 	restoreGlobal()
 	if derr != nil {
-		res.HarnessErr = fmt.Sprintf("generated pool config rejected: %v\n%s", derr, b.text)
+		res.HarnessErr = fmt.Sprintf("generated pool config rejected: %v\n%s", derr, res.File)
 		return
 	}
-	preResolveFailed := false
+	if len(conf.Pools) != len(prs) {
+		res.HarnessErr = fmt.Sprintf("%d pools were decoded from a config of %d", len(conf.Pools), len(prs))
+		return
+	}
+	notResolved := map[*poolRun]bool{}
 	for _, e := range globalLogs.All() {
-		if strings.Contains(e.Message, "pre resolve failed") {
-			preResolveFailed = true
+		if !strings.Contains(e.Message, "pre resolve failed") {
+			continue
 		}
-	}
-	if preResolveFailed {
-		res.PreResolveFailed++
-	}
-	if b.up != nil {
-		// the target comes up between the reading of the config and the run
-		if err := b.up(); err != nil {
-			res.HarnessErr = err.Error()
-			return
-		}
-	}
-	pc := &conf.Pools[0]
-	gp := newGunProbes(viol)
-	pc.NewGun = gp.wrapFactory(pc.NewGun)
-	realProvider := pc.Provider
-	pp := newProbeProvider(realProvider, viol)
-	pc.Provider = pp
-	if bh := c.Behind; bh != nil {
-		// core.Schedule: "Start SHOULD be called once, before any Next call" - the engine leaves it to the first Next; here
-		// the pool's schedule is started in the past, so the sections that lie before the run are overdue from the beginning
-		newSchedule := pc.NewRPSSchedule
-		pc.NewRPSSchedule = func() (core.Schedule, error) {
-			s, err := newSchedule()
-			if err == nil && s != nil {
-				s.Start(time.Now().Add(-time.Duration(bh.Ms) * time.Millisecond))
+		for _, pr := range prs {
+			// (the warning names the target; the pools of an engine have targets of their own)
+			if !multi || ctxString(e.Context, "target") == pr.target() {
+				notResolved[pr] = true
+				break
 			}
-			return s, err
 		}
 	}
-	before := dumpShared(realProvider)
-	if c.Kind == kindHTTP {
-		// the http provider reads (preload: all of) its ammo inside Run: the baseline is taken when the
-		// first ammo arrives, while no instance holds one yet
-		pp.onFirst = func() { before = dumpShared(realProvider) }
+	for pr := range notResolved {
+		pr.res.PreResolveFailed++
+	}
+	for _, pr := range prs {
+		if pr.b.up != nil {
+			// the target comes up between the reading of the config and the run
+			if err := pr.b.up(); err != nil {
+				res.HarnessErr = err.Error()
+				return
+			}
+		}
+	}
+	for i, pr := range prs {
+		pc := &conf.Pools[i]
+		pr.gp = newGunProbes(pr.viol)
+		pc.NewGun = pr.gp.wrapFactory(pc.NewGun)
+		pr.real = pc.Provider
+		pr.pp = newProbeProvider(pr.real, pr.viol)
+		pc.Provider = pr.pp
+		if bh := pr.c.Behind; bh != nil {
+			// core.Schedule: "Start SHOULD be called once, before any Next call" - the engine leaves it to the first Next; here
+			// the pool's schedule is started in the past, so the sections that lie before the run are overdue from the beginning
+			newSchedule := pc.NewRPSSchedule
+			pc.NewRPSSchedule = func() (core.Schedule, error) {
+				s, err := newSchedule()
+				if err == nil && s != nil {
+					s.Start(time.Now().Add(-time.Duration(bh.Ms) * time.Millisecond))
+				}
+				return s, err
+			}
+		}
+		pr.before = dumpShared(pr.real)
+		if pr.c.Kind == kindHTTP {
+			// the http provider reads (preload: all of) its ammo inside Run: the baseline is taken when the
+			// first ammo arrives, while no instance holds one yet
+			pr := pr
+			pr.pp.onFirst = func() { pr.before = dumpShared(pr.real) }
+		}
+	}
+	if multi {
+		for _, pr := range prs {
+			pr.gp.poolID = pr.id
+			for _, o := range prs {
+				if o != pr {
+					pr.gp.others = append(pr.gp.others, o.gp)
+				}
+			}
+		}
 	}
 	m := pand.Metrics()
 	// Warn level and above only: a logger that accepts Debug switches the guns into their verbose mode.
@@ -176,7 +282,7 @@ func runRound(c Case, res *Result) {
 	eng := engine.New(zap.New(logCore), m, conf)
 	var runErr error
 	if c.storm() {
-		pp.mark = int64(c.Behind.certain())
+		first.pp.mark = int64(c.Behind.certain())
 	}
 	t0 := time.Now()
 	ok, stacks := vf.Deadline(90*time.Second, func() {
@@ -184,7 +290,7 @@ func runRound(c Case, res *Result) {
 		eng.Wait()
 	})
 	res.ElapsedMs = time.Since(t0).Milliseconds()
-	if from, to, ok := pp.span(t0); ok {
+	if from, to, ok := first.pp.span(t0); ok {
 		res.StormFromMs, res.StormToMs = from.Milliseconds(), to.Milliseconds()
 		// the aggregators flush every second, counted from the start of the pool
 		for mark := time.Second; mark < to; mark += time.Second {
@@ -202,8 +308,16 @@ func runRound(c Case, res *Result) {
 		res.RunErr = runErr.Error()
 		viol.add("the pool run failed: %v", runErr)
 	}
-	transport := 0
 	for _, e := range logs.All() {
+		// every pool logs through a logger that carries its id (engine: log.With("pool", id))
+		pr := first
+		if id := ctxString(e.Context, "pool"); id != "" {
+			for _, o := range prs {
+				if o.id == id {
+					pr = o
+				}
+			}
+		}
 		msg := e.Message
 		for _, f := range e.Context {
 			if f.Key == "error" {
@@ -214,36 +328,81 @@ func runRound(c Case, res *Result) {
 				}
 			}
 		}
-		if len(res.Logged) < 12 {
-			res.Logged = append(res.Logged, e.Level.String()+" "+msg)
+		if len(pr.res.Logged) < 12 {
+			pr.res.Logged = append(pr.res.Logged, e.Level.String()+" "+msg)
 		}
 		if strings.Contains(msg, "missing address") {
 			// (net: "dial tcp: missing address") no load on the machine empties an address
-			viol.add("a gun dialled an empty address, the gun config names the target %v: %s %s", b.pool["gun"].(map[string]any)["target"], e.Level, msg)
+			pr.viol.add("a gun dialled an empty address, the gun config names the target %v: %s %s", pr.target(), e.Level, msg)
 		} else if isTransportError(msg) {
-			transport++
-		} else if isDroppedInvocation(c, e.Level, msg) {
-			res.StepFailures++
+			pr.transport++
+		} else if isDroppedInvocation(pr.c, e.Level, msg) {
+			pr.res.StepFailures++
 		} else {
-			viol.add("the run logged a failure that is not a transport error (the target answers every request properly): %s %s", e.Level, msg)
+			pr.viol.add("the run logged a failure that is not a transport error (the target answers every request properly): %s %s", e.Level, msg)
 		}
 	}
-	res.TransportErrors += transport
-	b.strict = transport == 0
-	after := dumpShared(realProvider)
+	started := m.InstanceStart.Get()
+	if !multi {
+		first.judge(started)
+		return
+	}
+	bound, poolsOverlapping := int64(0), 0
+	for _, pr := range prs {
+		rep := pr.judge(-1)
+		bound += int64(rep.Bound)
+		if rep.Bound > pr.c.Instances {
+			pr.viol.add("%d gun objects were bound, the startup schedule of the pool starts %d instances", rep.Bound, pr.c.Instances)
+		}
+		if rep.MaxActive >= 2 {
+			poolsOverlapping++
+		}
+		res.AcrossPools += rep.AcrossPools
+	}
+	if bound != started {
+		viol.add("%d instances were started by the engine but %d gun objects were bound in its %d pools: not one gun per instance", started, bound, len(prs))
+	}
+	res.PoolsOverlapping = max(res.PoolsOverlapping, poolsOverlapping)
+	// did the pools make their guns side by side? (from the first call of a pool's gun factory - its warm-up gun - to the
+	// return of the last one - the gun of its last instance)
+	side := false
+	for i, a := range prs {
+		af, at, aok := a.gp.ctorSpan()
+		for _, b := range prs[i+1:] {
+			bf, bt, bok := b.gp.ctorSpan()
+			if aok && bok && af.Before(bt) && bf.Before(at) {
+				side = true
+			}
+		}
+	}
+	if side {
+		res.CtorsSideBySide++
+	}
+}
+
+// judge holds what the run left of this pool against the oracle (instancesStarted: see gunProbes.verify).
+func (pr *poolRun) judge(instancesStarted int64) gunReport {
+	c, b, res, viol, pp := pr.c, pr.b, pr.res, pr.viol, pr.pp
+	res.TransportErrors += pr.transport
+	b.strict = pr.transport == 0
+	after := dumpShared(pr.real)
 	res.DumpLines = len(after)
-	if changes := diffDumps(before, after, 8); len(changes) > 0 {
+	if changes := diffDumps(pr.before, after, 8); len(changes) > 0 {
 		res.Changed = changes
 		viol.add("shared definitions held by the provider were altered by the run (%d dump lines compared): %s", len(after), strings.Join(changes, " ;; "))
 	}
-	res.InstancesStarted = m.InstanceStart.Get()
-	rep := gp.verify(res.InstancesStarted)
+	rep := pr.gp.verify(instancesStarted)
+	res.InstancesStarted = instancesStarted
+	if instancesStarted < 0 {
+		res.InstancesStarted = int64(rep.Bound) // (an engine of several pools counts the instances of all of them together)
+	}
 	// keep the strongest overlap evidence over the rounds
 	if rep.MaxActive > res.Guns.MaxActive {
 		res.Guns.MaxActive = rep.MaxActive
 	}
 	res.Guns.Overlapping += rep.Overlapping
 	res.Guns.Shots += rep.Shots
+	res.Guns.AcrossPools += rep.AcrossPools
 	res.Guns.FactoryCalls, res.Guns.Bound, res.Guns.GunsShooting = rep.FactoryCalls, rep.Bound, rep.GunsShooting
 	// every acquired ammo is either shot or, with discard_overflow, dropped by an instance that is behind the schedule
 	discarded := int(pp.acquiredCount() - rep.Shots)
@@ -289,6 +448,16 @@ func runRound(c Case, res *Result) {
 	if rep.Shots != int64(c.Shots-discarded) {
 		viol.add("%d shots were fired, the provider was limited to %d ammo and the schedule had more tokens%s", rep.Shots, c.Shots, b.discardedNote())
 	}
+	if b.answFile != "" {
+		// measured, not judged: the answ log is there and holds something (grpc guns open - and truncate - the file once per gun)
+		if st, err := os.Stat(b.answFile); err == nil {
+			res.AnswLogFiles++
+			if st.Size() > 0 {
+				res.AnswLogWritten++
+			}
+		}
+	}
+	return rep
 }
 
 // isTransportError: failures of the loopback connection itself (the machine is saturated by
@@ -725,6 +894,11 @@ func label(c Case, o *vf.Obs, res *Result) {
 		o.ClassIf(across && c.Agg == "jsonlines", "discards_reported_across_periodic_flush_jsonlines")
 		o.Note("storm_ms", []int64{res.StormFromMs, res.StormToMs})
 	}
+	if c.AnswLog != "" {
+		o.ClassIf(res.AnswLogWritten > 0, "answlog_file_holds_entries")
+		o.ClassIf(res.AnswLogWritten > 0 && overlap, "answlog_file_holds_entries_and_shots_overlap")
+	}
+	labelEngine(c, o, res)
 	if len(res.Logged) > 0 {
 		o.Note("warnings_logged", res.Logged)
 	}
@@ -733,6 +907,89 @@ func label(c Case, o *vf.Obs, res *Result) {
 	o.Note("dump_lines", res.DumpLines)
 	if c.Instances >= 2 && overlap {
 		o.NonTrivial()
+	}
+}
+
+// labelEngine names the classes of an engine of several pools (Case.Siblings).
+func labelEngine(c Case, obs *vf.Obs, res *Result) {
+	pools := c.pools()
+	o := &classSet{o: obs, seen: map[string]bool{}} // a class counts once per case, however many siblings show it
+	o.Class(fmt.Sprintf("pools_%d", len(pools)))
+	if len(pools) < 2 {
+		return
+	}
+	o.Class("multi_pool")
+	kinds := map[string]int{}
+	grpcGuns, grpcAnsw, httpAnsw, answDefaultFile, instances := 0, 0, 0, 0, 0
+	for i, p := range pools {
+		kinds[p.Kind]++
+		instances += p.Instances
+		if i > 0 {
+			o.Class("sibling_kind_" + p.Kind)
+			for _, s := range p.sharedObjects() {
+				o.Class("sibling_obj_" + s)
+			}
+		}
+		if p.grpcGun() {
+			grpcGuns++
+			if p.AnswLog != "" {
+				grpcAnsw++
+			}
+		} else if p.AnswLog != "" {
+			httpAnsw++
+		}
+		if p.AnswLog == answDefault {
+			answDefaultFile++
+		}
+	}
+	o.ClassIf(len(kinds) == 1, "multi_pool_one_gun_kind")
+	o.ClassIf(len(kinds) > 1, "multi_pool_mixed_gun_kinds")
+	o.ClassIf(len(kinds) == 1 && grpcGuns > 0, "multi_pool_one_gun_kind_grpc")
+	// guns whose constructor runs on the pools' and the instances' goroutines (grpc, grpc/scenario: NewGun makes the answ log)
+	o.ClassIf(grpcGuns >= 2, "multi_pool_grpc_guns_in_2_or_more_pools")
+	o.ClassIf(grpcAnsw >= 2, "multi_pool_answlog_of_grpc_guns_in_2_or_more_pools")
+	o.ClassIf(grpcAnsw >= 1 && grpcAnsw < grpcGuns, "multi_pool_grpc_guns_with_and_without_answlog")
+	o.ClassIf(httpAnsw >= 2, "multi_pool_answlog_of_http_guns_in_2_or_more_pools")
+	o.ClassIf(grpcAnsw >= 1 && httpAnsw >= 1, "multi_pool_answlog_of_grpc_and_http_guns")
+	o.ClassIf(answDefaultFile >= 2, "multi_pool_answlog_default_file_shared_by_pools")
+	o.ClassIf(instances > 16, "multi_pool_more_than_16_instances")
+	if res == nil {
+		return
+	}
+	side := res.CtorsSideBySide > 0
+	o.ClassIf(side, "multi_pool_guns_made_side_by_side")
+	o.ClassIf(side && grpcAnsw >= 2, "multi_pool_answlog_of_grpc_guns_made_side_by_side")
+	o.ClassIf(res.AcrossPools > 0, "multi_pool_shots_overlap_across_pools")
+	o.ClassIf(res.PoolsOverlapping >= 2, "multi_pool_shots_overlap_within_2_or_more_pools")
+	for i, sr := range res.Siblings {
+		if i < len(c.Siblings) && sr != nil {
+			sc := c.Siblings[i]
+			o.ClassIf(sr.Guns.MaxActive >= 2, "sibling_overlap_measured")
+			o.ClassIf(sr.Discarded > 0, "sibling_shots_discarded_as_overflow")
+			o.ClassIf(sr.StepFailures > 0, "sibling_invocations_dropped_after_failed_postprocessor")
+			o.ClassIf(sc.TargetBy == targetByNameLate && sr.PreResolveFailed >= res.Rounds && res.Rounds > 0, "sibling_dns_cache_on_target_not_pre_resolved")
+			o.ClassIf(sr.TransportErrors > 0, "sibling_transport_errors_under_load")
+			o.ClassIf(sc.AnswLog != "" && sr.AnswLogWritten > 0, "sibling_answlog_file_holds_entries")
+		}
+	}
+	obs.Note("sibling_pools", res.Siblings)
+}
+
+type classSet struct {
+	o    *vf.Obs
+	seen map[string]bool
+}
+
+func (s *classSet) Class(name string) {
+	if !s.seen[name] {
+		s.seen[name] = true
+		s.o.Class(name)
+	}
+}
+
+func (s *classSet) ClassIf(cond bool, name string) {
+	if cond {
+		s.Class(name)
 	}
 }
 
